@@ -92,6 +92,19 @@ impl<T> ChangeSet<T> {
     }
 }
 
+#[cfg(feature = "verif-hooks")]
+impl<T> ChangeSet<T> {
+    /// Structural self-check for the external runtime-verification harness.
+    pub fn verif_check(&self) -> Result<(), String> {
+        self.inner.verif_check(&self.mask)
+    }
+
+    /// The membership mask of this change set (read-only).
+    pub fn verif_mask(&self) -> &BitSet {
+        &self.mask
+    }
+}
+
 impl<T> FromIterator<(Entity, T)> for ChangeSet<T>
 where
     T: AddAssign,
